@@ -974,7 +974,25 @@ func (x *Exec) mapKeyTerm(st *State, mt *types.Map, k *Val) string {
 	if _, ok := mt.Key().Underlying().(*types.Interface); ok {
 		panic(unsupported("interface-keyed map"))
 	}
-	return "(concat " + strings.Join(ts, " ") + ")"
+	// A multi-field key is packed by an uninterpreted function that equals the concatenation of
+	// the fields: ground keys then keep the shape pack(f1, .., fn) that quantified invariants over
+	// struct-typed keys use as their trigger (a bare concat is flattened by the solvers' rewriters
+	// when a field is itself a concatenation).
+	ls := x.leaves(mt.Key())
+	name := "pack_" + sanitize(typeKey(mt.Key()))
+	if !x.sc.decl[name] {
+		x.sc.decl[name] = true
+		var sorts, params, names []string
+		for i, l := range ls {
+			sorts = append(sorts, l.Sort)
+			params = append(params, fmt.Sprintf("(a%d %s)", i, l.Sort))
+			names = append(names, fmt.Sprintf("a%d", i))
+		}
+		x.sc.ufDecls = append(x.sc.ufDecls,
+			fmt.Sprintf("(declare-fun %s (%s) %s)", name, strings.Join(sorts, " "), x.mapKeySort(mt)),
+			fmt.Sprintf("(assert (forall (%s) (! (= (%s %s) (concat %s)) :pattern ((%s %s)))))", strings.Join(params, " "), name, strings.Join(names, " "), strings.Join(names, " "), name, strings.Join(names, " ")))
+	}
+	return "(" + name + " " + strings.Join(ts, " ") + ")"
 }
 
 func (x *Exec) mapComps(st *State, t types.Type) (mt *types.Map, ks string, pres *HeapSym, presKey string, presCI compInfo, card *HeapSym, cardKey string, cardCI compInfo) {
